@@ -418,7 +418,7 @@ func (prop) Generate(rng *core.Rand, tier string, emit func(string)) {
 	n, ncas, maxSteps := 2000, 4, 16
 	switch tier {
 	case "thorough":
-		n, ncas, maxSteps = 30000, 25, 30
+		n, ncas, maxSteps = 24000, 25, 30
 	case "search":
 		n, ncas, maxSteps = 4000, 6, 20
 	}
